@@ -131,6 +131,96 @@ Proof.
   - intros t (B & L & U). unfold bytes_ser. now rewrite bytes_ok_app, le_bytes_ok, B.
 Qed.
 
+(* ---------------- BTreeSet<u8> ---------------- *)
+Lemma asc_from_asc lo l : asc_from lo l -> asc l.
+Proof. destruct l as [|x r]; cbn [asc_from asc]; tauto. Qed.
+
+Lemma set_ins_asc_from x : forall l lo, lo < x -> asc_from lo l -> asc_from lo (set_ins x l).
+Proof.
+  induction l as [|y r IH]; intros lo Hx H; cbn [set_ins asc_from] in *.
+  - auto.
+  - destruct H as [H1 H2].
+    destruct (x <? y) eqn:E1; zb.
+    + cbn [asc_from]. repeat split; auto.
+    + destruct (x =? y) eqn:E2; zb.
+      * cbn [asc_from]. auto.
+      * cbn [asc_from]. split; [exact H1|]. apply IH; [lia|exact H2].
+Qed.
+
+Lemma set_ins_asc x l : asc l -> asc (set_ins x l).
+Proof.
+  destruct l as [|y r]; cbn [set_ins asc]; [auto|]. intros H.
+  destruct (x <? y) eqn:E1; zb.
+  - cbn [asc asc_from]. auto.
+  - destruct (x =? y) eqn:E2; zb.
+    + exact H.
+    + cbn [asc]. apply set_ins_asc_from; [lia|exact H].
+Qed.
+
+Lemma set_norm_asc l : asc (set_norm l).
+Proof. induction l as [|x r IH]; cbn [set_norm]; [exact I|]. now apply set_ins_asc. Qed.
+
+(* inserting below a strictly ascending list is a cons *)
+Lemma set_ins_below x l : asc_from x l -> set_ins x l = x :: l.
+Proof.
+  destruct l as [|y r]; cbn [set_ins asc_from]; [reflexivity|]. intros [H _].
+  replace (x <? y) with true by (symmetry; apply Z.ltb_lt; lia). reflexivity.
+Qed.
+
+(* canonical lists are fixed points of the normalisation *)
+Lemma set_norm_id l : asc l -> set_norm l = l.
+Proof.
+  induction l as [|x r IH]; [reflexivity|]. cbn [asc set_norm]. intros H.
+  rewrite IH by (eapply asc_from_asc; exact H). now apply set_ins_below.
+Qed.
+
+Lemma set_ins_bytes x l : is_byte x = true -> bytes_ok l = true -> bytes_ok (set_ins x l) = true.
+Proof.
+  intros Hx. induction l as [|y r IH]; cbn [set_ins]; intros H.
+  - cbn [bytes_ok forallb]. now rewrite Hx.
+  - destruct (x <? y).
+    + change (bytes_ok (x :: y :: r)) with (is_byte x && bytes_ok (y :: r)). now rewrite Hx, H.
+    + destruct (x =? y); [exact H|].
+      change (bytes_ok (y :: r)) with (is_byte y && bytes_ok r) in H.
+      change (bytes_ok (y :: set_ins x r)) with (is_byte y && bytes_ok (set_ins x r)).
+      apply andb_true_iff in H as [Hy Hr]. now rewrite Hy, IH.
+Qed.
+
+Lemma set_norm_bytes l : bytes_ok l = true -> bytes_ok (set_norm l) = true.
+Proof.
+  induction l as [|x r IH]; cbn [set_norm]; [auto|]. intros H.
+  change (bytes_ok (x :: r)) with (is_byte x && bytes_ok r) in H. apply andb_true_iff in H as [Hx Hr].
+  apply set_ins_bytes; auto.
+Qed.
+
+Lemma set_ins_len x l : zlen (set_ins x l) <= 1 + zlen l.
+Proof.
+  induction l as [|y r IH]; cbn [set_ins].
+  - rewrite zlen_cons. lia.
+  - destruct (x <? y); [rewrite (zlen_cons x); lia|].
+    destruct (x =? y); [pose proof (zlen_nonneg (y :: r)); lia|].
+    rewrite !zlen_cons. lia.
+Qed.
+
+Lemma set_norm_len l : zlen (set_norm l) <= zlen l.
+Proof.
+  induction l as [|x r IH]; cbn [set_norm]; [lia|].
+  pose proof (set_ins_len x (set_norm r)). rewrite zlen_cons. lia.
+Qed.
+
+Lemma c_set_ok : codec_ok c_set.
+Proof.
+  constructor; cbn [c_set c_ser c_de c_wf].
+  - intros t tl (A & B & L). unfold set_de. rewrite bytes_rt by auto. now rewrite set_norm_id.
+  - intros. rewrite bytes_ser_len. pose proof (zlen_nonneg t). lia.
+  - reflexivity.
+  - intros bs t tl. unfold set_de. destruct (bytes_de bs) as [[x r]|] eqn:E; [|discriminate].
+    intros H. injection H as <- <-. apply bytes_some in E as (B & L & _).
+    split; [apply set_norm_asc|]. split; [now apply set_norm_bytes|].
+    pose proof (set_norm_len x). lia.
+  - intros t (A & B & L). unfold bytes_ser. now rewrite bytes_ok_app, le_bytes_ok, B.
+Qed.
+
 (* ---------------- struct fields ---------------- *)
 Lemma c_pair_ok {A B} (ca : codec A) (cb : codec B) : codec_ok ca -> codec_ok cb -> codec_ok (c_pair ca cb).
 Proof.
@@ -240,3 +330,6 @@ Proof.
   - apply c_vec_ok, c_it_ok.
   - apply c_option_ok, c_uint_ok. lia.
 Qed.
+
+Lemma c_sb_ok : codec_ok c_sb.
+Proof. exact c_set_ok. Qed.
